@@ -1,7 +1,405 @@
 /-
-  C09 — property theorems (see DESIGN.md §5 C09).
+  C09 — struct ↔ control-paragraph codec (the schema interpreter of Model/Codec.lean):
+  paragraph algebra (`Set`, `Update`), which fields marshalling writes, totality,
+  the round trip at the paragraph level and through the text, pass-through of unknown
+  fields of an embedded Paragraph.
+  Property theorems only; lemmas live in GoDebian/Lemmas/Codec*.lean, the well-formedness
+  predicates in GoDebian/Spec/Codec.lean.
 -/
 import GoDebian.Model.Codec
+import GoDebian.Spec.Codec
+import GoDebian.Lemmas.Res
+import GoDebian.Lemmas.CodecPara
+import GoDebian.Lemmas.CodecConvert
+import GoDebian.Lemmas.CodecMarshal
+import GoDebian.Lemmas.CodecRecord
+import GoDebian.Lemmas.CodecCustom
+import GoDebian.Lemmas.CodecText
+import GoDebian.Lemmas.CodecPass
 
 namespace GoDebian.Props.C09
+open GoDebian GoDebian.Deb822 GoDebian.Codec GoDebian.Spec.Codec
+open GoDebian.Lemmas.Res
+
+/-! ### Stage A — paragraph algebra -/
+
+/-- `Update`: the other's values win, then p's; nothing else appears.  No invariant on
+    either paragraph is needed: `Update` only walks the two `Order` lists. -/
+theorem C09_update_values (p q : Paragraph) (k : Bytes) :
+    (p.update q).get k =
+      if q.order.contains k then q.get k else if p.order.contains k then p.get k else [] :=
+  Lemmas.Codec.get_update p q k
+
+/-- … and a name has a value afterwards exactly when one of the two `Order`s lists it -/
+theorem C09_update_lookup (p q : Paragraph) (k : Bytes) :
+    lookup k (p.update q).values =
+      if k ∈ q.order then some (q.get k) else if k ∈ p.order then some (p.get k) else none :=
+  Lemmas.Codec.lookup_update p q k
+
+/-- `Update`: p's fields in order, then the other's new fields in their order (`p.order`
+    need not be duplicate-free for this) -/
+theorem C09_update_order (p q : Paragraph) (hq : q.order.Nodup) :
+    (p.update q).order = p.order ++ q.order.filter (fun k => !p.order.contains k) := by
+  rw [Lemmas.Codec.order_update, Lemmas.Codec.newKeys_of_nodup hq]
+
+example :
+    let p : Paragraph := ⟨[[65], [66]], [([65], [1]), ([66], [2]), ([90], [9])]⟩
+    let q : Paragraph := ⟨[[67], [66]], [([66], [3]), ([67], [4])]⟩
+    q.order.Nodup ∧
+    p.update q = ⟨[[65], [66], [67]], [([65], [1]), ([66], [3]), ([67], [4])]⟩ := by
+  decide +kernel
+
+/-- `Set` -/
+theorem C09_set (p : Paragraph) (k v : Bytes) :
+    (p.set k v).get k = v ∧ (∀ k', k' ≠ k → (p.set k v).get k' = p.get k') ∧
+    (p.set k v).order = if (lookup k p.values).isSome then p.order else p.order ++ [k] := by
+  refine ⟨by simp [Lemmas.Codec.get_set], fun k' hk' => ?_, Lemmas.Codec.order_set p k v⟩
+  rw [Lemmas.Codec.get_set, if_neg (fun e => hk' e.symm)]
+
+example :
+    let p : Paragraph := ⟨[[65]], [([65], [1])]⟩
+    p.set [66] [2] = ⟨[[65], [66]], [([65], [1]), ([66], [2])]⟩ ∧
+    p.set [65] [3] = ⟨[[65]], [([65], [3])]⟩ := by
+  decide +kernel
+
+/-! ### Stage B — what marshalling writes -/
+
+/-- The statement as first written: the excuse "another field descriptor with the same
+    key" does not cover a schema that lists the *same* descriptor twice. -/
+def C09_omit_required_full : Prop :=
+  ∀ (s : Schema) (r : List Val) (p : Paragraph), convertToParagraph s r = .ok p →
+    (∀ f ∈ s, f.anonymous = false) → ∀ (f : FieldDesc) (v : Val), (f, v) ∈ s.zip r →
+    f.key ≠ [45] → ∀ data : Bytes, marshalValue 16 f.kind f.delim v = .ok data →
+    (f.key ∈ p.order ↔ (f.required = true ∨ data ≠ [])) ∨ (∃ g ∈ s, g ≠ f ∧ g.key = f.key)
+
+/-- the witness: one optional string field, listed twice, empty in its first copy -/
+def dupField : FieldDesc := .mk "A" [65] .str [] [] false false false
+
+theorem C09_omit_required_full_false : ¬ C09_omit_required_full := by
+  intro H
+  have h : convertToParagraph [dupField, dupField] [.str [], .str [120]] =
+      .ok ⟨[[65]], [([65], [120])]⟩ := by decide +kernel
+  rcases H _ _ _ h (by simp [dupField, FieldDesc.anonymous]) dupField (.str []) (by simp)
+      (by decide) [] rfl with h1 | ⟨g, hg, hne, _⟩
+  · have := h1.mp (by simp [dupField, FieldDesc.key])
+    simp [dupField, FieldDesc.required] at this
+  · simp at hg
+    exact hne hg
+
+/-- Optional fields whose rendering is empty are omitted; required fields are always
+    written; this for every non-anonymous, non-skipped field whose key occurs once among the
+    schema's known keys — embedded Paragraph or not (an omitted known field does not come back from
+    it). -/
+theorem C09_omit_required_partial (s : Schema) (r : List Val) (p : Paragraph)
+    (h : convertToParagraph s r = .ok p) (f : FieldDesc) (v : Val) (hf : (f, v) ∈ s.zip r)
+    (ha : f.anonymous = false) (hk : f.key ≠ [45]) (data : Bytes)
+    (hd : marshalValue 16 f.kind f.delim v = .ok data) :
+    (f.key ∈ p.order ↔ (f.required = true ∨ data ≠ [])) ∨
+      2 ≤ (knownKeys s).count f.key := by
+  by_cases hu : (knownKeys s).count f.key ≤ 1
+  · exact Or.inl (Lemmas.Codec.mem_order_convert h hf ha hk hd hu)
+  · exact Or.inr (by omega)
+
+/-- the form first asked for (no anonymous field at all), with the repaired excuse -/
+theorem C09_omit_required (s : Schema) (r : List Val) (p : Paragraph)
+    (h : convertToParagraph s r = .ok p) (hnoembed : ∀ f ∈ s, f.anonymous = false)
+    (f : FieldDesc) (v : Val) (hf : (f, v) ∈ s.zip r) (hk : f.key ≠ [45]) (data : Bytes)
+    (hd : marshalValue 16 f.kind f.delim v = .ok data) :
+    (f.key ∈ p.order ↔ (f.required = true ∨ data ≠ [])) ∨
+      2 ≤ (knownKeys s).count f.key :=
+  C09_omit_required_partial s r p h f v hf (hnoembed f (Lemmas.Codec.mem_zip_left hf)) hk data hd
+
+/-- A schema with a required and an optional string, an int, a bool, a skipped and an
+    anonymous non-Paragraph field: the empty optional string is omitted, the empty required
+    one is written, 0 and false are written ("0", "no"). -/
+def sampleSchema : Schema :=
+  [.mk "Name" (Bytes.ofString "Name") .str [] [] true false false,
+   .mk "Note" (Bytes.ofString "Note") .str [] [] false false false,
+   .mk "N" (Bytes.ofString "N") .int [] [] false false false,
+   .mk "Ok" (Bytes.ofString "Ok") .bool [] [] false false false,
+   .mk "Hidden" [45] .str [] [] false false false,
+   .mk "Inner" (Bytes.ofString "Inner") (.nested []) [] [] false false true]
+
+example :
+    convertToParagraph sampleSchema [.str [], .zero, .zero, .bool false, .str [120], .zero] =
+      .ok ⟨[Bytes.ofString "Name", Bytes.ofString "N", Bytes.ofString "Ok"],
+        [(Bytes.ofString "Name", []), (Bytes.ofString "N", [48]),
+         (Bytes.ofString "Ok", Bytes.ofString "no")]⟩ ∧
+    (sampleSchema.map FieldDesc.key).Nodup := by
+  decide +kernel
+
+/-- absence of a required field on input is an error (whatever the other fields are,
+    nested structs included) -/
+theorem C09_required_missing (p : Paragraph) (s : Schema) (old : List Val) (f : FieldDesc)
+    (hf : f ∈ s) (hr : f.required = true) (hk : f.key ≠ [45]) (ha : f.anonymous = false)
+    (hmiss : lookup f.key p.values = none) :
+    ∃ e, decodeStruct p s old = .error e :=
+  Lemmas.Codec.decodeFields_required_missing p f hr hk ha hmiss s _ old hf
+
+example :
+    ∃ e, decodeStruct ⟨[Bytes.ofString "Note"], [(Bytes.ofString "Note", [120])]⟩
+      sampleSchema [] = .error e :=
+  C09_required_missing _ sampleSchema [] (.mk "Name" (Bytes.ofString "Name") .str [] [] true false false)
+    (by simp [sampleSchema]) rfl (by decide +kernel) rfl (by decide +kernel)
+
+/-- marshalling never panics, and never runs out of fuel on schemas whose kinds are nested
+    at most 15 deep (`depthOK`; every Go type in use has depth ≤ 1) -/
+theorem C09_marshal_total (s : Schema) (r : List Val) :
+    convertToParagraph s r ≠ .error .panic ∧
+      (depthOK s = true → convertToParagraph s r ≠ .error .fuel) :=
+  Lemmas.Codec.convert_total s r
+
+example : depthOK sampleSchema = true ∧
+    depthOK [.mk "L" [76] (.slice (.slice .str)) [] [] false false false] = true := by
+  decide +kernel
+
+/-- the depth hypothesis cannot be dropped: 16 nested slices exhaust the fuel -/
+example :
+    let k16 : Kind := (List.range 16).foldl (fun k _ => .slice k) .str
+    let v16 : Val := (List.range 16).foldl (fun v _ => .list [v]) (.str [120])
+    kindDepth k16 = 16 ∧
+    convertToParagraph [.mk "L" [76] k16 [] [] false false false] [v16] = .error .fuel := by
+  decide +kernel
+
+/-! ### Stage C — the round trip at the paragraph level -/
+
+/-- A record of a flat schema (`flatSchema`: named, non-skipped fields with distinct keys,
+    each a string / int / uint / bool / custom value or a list of such; `multiline` only on
+    lists whose strip set has the newline) whose values match their kinds (`wfRec`) is
+    decoded from its own paragraph to the same record, the Go zero value identified with
+    `.zero` (`SameRec`). -/
+theorem C09_roundtrip_paragraph (s : Schema) (r : List Val) (p : Paragraph)
+    (hs : flatSchema s = true) (hr : wfRec s r) (h : convertToParagraph s r = .ok p) :
+    ∃ r', decodeStruct p s [] = .ok r' ∧ SameRec s r r' :=
+  Lemmas.Codec.roundtrip_paragraph hs hr h
+
+/-- the `lawful` hypothesis on custom values is discharged for versions by C03 … -/
+theorem C09_lawful_version (s : Bytes) (v : Version.Version) (h : Version.parse s = .ok v)
+    (mustDecode : Bool) : wfCustom mustDecode "Version" (.version v) :=
+  Lemmas.Codec.wfCustom_version h mustDecode
+
+/-- … and for architectures by C05 -/
+theorem C09_lawful_arch (n : Bytes) (a : Dep.Arch) (h : Dep.parseArch n = .ok a)
+    (mustDecode : Bool) : wfCustom mustDecode "Arch" (.arch a) :=
+  Lemmas.Codec.wfCustom_arch h mustDecode
+
+/-- A flat schema with every kind: required string, required version, optional architecture,
+    int, uint, bool, a ", "-separated list with a strip set, a list with the default
+    delimiter, a multi-line newline-separated list of ints, an optional string. -/
+def flatSample : Schema :=
+  let B := Bytes.ofString
+  [.mk "Package" (B "Package") .str [] [] true false false,
+   .mk "Version" (B "Version") (.custom "Version") [] [] true false false,
+   .mk "Arch" (B "Architecture") (.custom "Arch") [] [] false false false,
+   .mk "Size" (B "Size") .int [] [] false false false,
+   .mk "Count" (B "Count") .uint [] [] false false false,
+   .mk "Essential" (B "Essential") .bool [] [] false false false,
+   .mk "Binaries" (B "Binary") (.slice .str) (B ", ") (B "\n\r\t ") false false false,
+   .mk "Tags" (B "Tag") (.slice .str) [] [] false false false,
+   .mk "Nums" (B "Nums") (.slice .int) [10] (B "\n\r\t ") true true false,
+   .mk "Note" (B "Note") .str [] [] false false false]
+
+/-- … and a record for it: an untouched architecture (rendered "--"), a negative int, list
+    elements with inner blanks and commas-without-blank, an untouched int inside a list, an
+    empty optional string (omitted, comes back as the zero value). -/
+def flatRecord : List Val :=
+  let B := Bytes.ofString
+  [.str (B "hello"), .custom (.version ⟨1, B "2.30", B "10"⟩), .zero, .int (-5), .uint 7,
+   .bool true, .list [.str (B "a b,c"), .str (B "d")], .list [.str (B "x"), .str (B "y,z")],
+   .list [.int 1, .zero], .str []]
+
+example : flatSchema flatSample = true := by decide +kernel
+
+example : wfRec flatSample flatRecord := by
+  refine ⟨trivial, ?_, ?_, (show -(2^63 : Int) ≤ -5 ∧ (-5 : Int) < 2^63 by decide),
+    (show 7 < 2^64 by decide), trivial, ?_, ?_, ?_, trivial, trivial⟩
+  · exact C09_lawful_version (Bytes.ofString "1:2.30-10") _ (by decide +kernel) true
+  · exact ⟨_, rfl, C09_lawful_arch (Bytes.ofString "--") _ (by decide +kernel) false⟩
+  · intro x hx
+    simp only [List.mem_cons, List.not_mem_nil, or_false] at hx
+    rcases hx with rfl | rfl <;> exact ⟨trivial, _, rfl, by decide +kernel⟩
+  · intro x hx
+    simp only [List.mem_cons, List.not_mem_nil, or_false] at hx
+    rcases hx with rfl | rfl <;> exact ⟨trivial, _, rfl, by decide +kernel⟩
+  · intro x hx
+    simp only [List.mem_cons, List.not_mem_nil, or_false] at hx
+    rcases hx with rfl | rfl
+    · exact ⟨(show -(2^63 : Int) ≤ 1 ∧ (1 : Int) < 2^63 by decide), _, rfl, by decide +kernel⟩
+    · exact ⟨trivial, _, rfl, by decide +kernel⟩
+
+example :
+    let B := Bytes.ofString
+    convertToParagraph flatSample flatRecord =
+      .ok ⟨[B "Package", B "Version", B "Architecture", B "Size", B "Count", B "Essential",
+            B "Binary", B "Tag", B "Nums"],
+        [(B "Package", B "hello"), (B "Version", B "1:2.30-10"), (B "Architecture", B "--"),
+         (B "Size", B "-5"), (B "Count", B "7"), (B "Essential", B "yes"),
+         (B "Binary", B "a b,c, d"), (B "Tag", B "x y,z"), (B "Nums", B "\n1\n0")]⟩ := by
+  decide +kernel
+
+/-! ### Stage D — the round trip through the text -/
+
+/-- `Marshal` then `Unmarshal`: a well-formed record of a flat schema whose fields all have
+    well-formed names, are not `multiline` and render as text (`textRec`: one trimmed line;
+    or, in a list field whose strip set has the newline, any text lines in the sense of
+    C08's `textValue`), with at least one field written (`someWritten`; an empty paragraph
+    is no paragraph), is marshalled to a text that unmarshals to the same record. -/
+theorem C09_roundtrip (s : Schema) (r : List Val) (hs : flatSchema s = true) (hr : wfRec s r)
+    (ht : textRec s r = true) (hne : someWritten s r = true) :
+    ∃ text r', marshal s r = .ok text ∧ unmarshal s text = .ok r' ∧ SameRec s r r' :=
+  Lemmas.Codec.roundtrip_text hs hr ht hne
+
+/-- marshalling a well-formed record of a flat schema cannot fail -/
+theorem C09_marshal_ok (s : Schema) (r : List Val) (hs : flatSchema s = true) (hr : wfRec s r) :
+    ∃ p, convertToParagraph s r = .ok p :=
+  Lemmas.Codec.convert_ok_of_wf hs hr
+
+/-- the flat sample without its multi-line list -/
+def textSample : Schema := flatSample.take 8 ++ flatSample.drop 9
+def textRecord : List Val := flatRecord.take 8 ++ flatRecord.drop 9
+
+example : flatSchema textSample = true ∧ textRec textSample textRecord = true ∧
+    someWritten textSample textRecord = true ∧
+    marshal textSample textRecord = .ok (Bytes.ofString
+      ("Package: hello\nVersion: 1:2.30-10\nArchitecture: --\nSize: -5\nCount: 7\n" ++
+       "Essential: yes\nBinary: a b,c, d\nTag: x y,z\n")) := by
+  decide +kernel
+
+example : wfRec textSample textRecord := by
+  refine ⟨trivial, ?_, ?_, (show -(2^63 : Int) ≤ -5 ∧ (-5 : Int) < 2^63 by decide),
+    (show 7 < 2^64 by decide), trivial, ?_, ?_, trivial, trivial⟩
+  · exact C09_lawful_version (Bytes.ofString "1:2.30-10") _ (by decide +kernel) true
+  · exact ⟨_, rfl, C09_lawful_arch (Bytes.ofString "--") _ (by decide +kernel) false⟩
+  · intro x hx
+    simp only [List.mem_cons, List.not_mem_nil, or_false] at hx
+    rcases hx with rfl | rfl <;> exact ⟨trivial, _, rfl, by decide +kernel⟩
+  · intro x hx
+    simp only [List.mem_cons, List.not_mem_nil, or_false] at hx
+    rcases hx with rfl | rfl <;> exact ⟨trivial, _, rfl, by decide +kernel⟩
+
+/-- A newline-separated list of file hashes (the `Files` field of a .dsc): the value has
+    two lines, the second is written as a continuation line, the reader appends a newline,
+    the strip set removes it. -/
+def filesSample : Schema :=
+  [.mk "Source" (Bytes.ofString "Source") .str [] [] true false false,
+   .mk "Files" (Bytes.ofString "Files") (.slice (.custom "MD5FileHash")) [10]
+     (Bytes.ofString "\n\r\t ") false false false]
+
+def hashA : FileHash :=
+  { alg := sMd5, hash := Bytes.ofString "d41d8cd9", size := 12,
+    filename := Bytes.ofString "a.dsc", byHash := [] }
+
+def hashB : FileHash :=
+  { alg := sMd5, hash := Bytes.ofString "900150983c", size := 3,
+    filename := Bytes.ofString "a.tar.gz", byHash := [] }
+
+def filesRecord : List Val :=
+  [.str (Bytes.ofString "hello"), .list [.custom (.hash hashA), .custom (.hash hashB)]]
+
+example : flatSchema filesSample = true ∧ textRec filesSample filesRecord = true ∧
+    someWritten filesSample filesRecord = true ∧
+    marshal filesSample filesRecord = .ok (Bytes.ofString
+      "Source: hello\nFiles: d41d8cd9 12 a.dsc\n 900150983c 3 a.tar.gz\n") := by
+  decide +kernel
+
+example : wfRec filesSample filesRecord := by
+  refine ⟨trivial, ?_, trivial⟩
+  intro x hx
+  simp only [List.mem_cons, List.not_mem_nil, or_false] at hx
+  rcases hx with rfl | rfl
+  · refine ⟨⟨_, rfl, fun h0 => absurd h0 (by decide +kernel), fun _ => ?_⟩, _, rfl, by decide +kernel⟩
+    have : parseFileHash sMd5 (renderFileHash hashA) = .ok hashA := by decide +kernel
+    exact congrArg (Except.map Custom.hash) this
+  · refine ⟨⟨_, rfl, fun h0 => absurd h0 (by decide +kernel), fun _ => ?_⟩, _, rfl, by decide +kernel⟩
+    have : parseFileHash sMd5 (renderFileHash hashB) = .ok hashB := by decide +kernel
+    exact congrArg (Except.map Custom.hash) this
+
+/-- `textRec` cannot be dropped: a string that starts with a blank is written on a
+    continuation line and comes back with a trailing newline; a multi-line value comes back
+    with one, too. -/
+example :
+    let s : Schema := [.mk "K" [75] .str [] [] false false false]
+    textRec s [.str (Bytes.ofString " x")] = false ∧
+    marshal s [.str (Bytes.ofString " x")] = .ok (Bytes.ofString "K: \n  x\n") ∧
+    (match unmarshal s (Bytes.ofString "K: \n  x\n") with
+     | .ok [.str b] => b == Bytes.ofString " x\n"
+     | _ => false) = true ∧
+    (match unmarshal s (Bytes.ofString "K: a\n b\n") with
+     | .ok [.str b] => b == Bytes.ofString "a\nb\n"
+     | _ => false) = true := by
+  decide +kernel
+
+/-- Why `flatField` allows `multiline` only on lists: a multi-line string is stored with its
+    leading newline and decodes from the paragraph with it; through the text it comes back
+    with a trailing newline instead. -/
+example :
+    let B := Bytes.ofString
+    let s : Schema := [.mk "D" [68] .str [] [] false true false]
+    flatSchema s = false ∧
+    convertToParagraph s [.str (B "foo")] = .ok ⟨[[68]], [([68], B "\nfoo")]⟩ ∧
+    (match decodeStruct ⟨[[68]], [([68], B "\nfoo")]⟩ s [] with
+     | .ok [.str b] => b == B "\nfoo"
+     | _ => false) = true ∧
+    marshal s [.str (B "foo")] = .ok (B "D: \n foo\n") ∧
+    (match unmarshal s (B "D: \n foo\n") with
+     | .ok [.str b] => b == B "foo\n"
+     | _ => false) = true := by
+  decide +kernel
+
+/-! ### Stage E — pass-through with an embedded Paragraph -/
+
+/-- A struct that embeds the `Paragraph` it was decoded from (first field, anonymous), its
+    other fields named, with distinct keys: marshalling keeps every field of the embedded
+    paragraph the schema does not know, with its value and in its place; a known field
+    that is written carries its new rendering, not the embedded text; a known optional
+    field whose rendering is empty is not written at all — it does not come back from the
+    embedded paragraph. -/
+theorem C09_passthrough (f0 : FieldDesc) (s' : Schema) (p0 : Paragraph) (r' : List Val)
+    (p : Paragraph) (h0a : f0.anonymous = true) (h0k : f0.kind = .para)
+    (hs' : ∀ g ∈ s', g.anonymous = false) (hnd : (knownKeys (f0 :: s')).Nodup)
+    (hp0 : p0.order.Nodup) (hlisted : ∀ k, (lookup k p0.values).isSome = true → k ∈ p0.order)
+    (h : convertToParagraph (f0 :: s') (.para p0 :: r') = .ok p) :
+    (∀ k, k ∉ knownKeys (f0 :: s') → p.get k = p0.get k) ∧
+    (p.order.filter (fun k => !(knownKeys (f0 :: s')).contains k) =
+      p0.order.filter (fun k => !(knownKeys (f0 :: s')).contains k)) ∧
+    (∀ f v data, (f, v) ∈ (f0 :: s').zip (.para p0 :: r') → f.anonymous = false → f.key ≠ [45] →
+      marshalValue 16 f.kind f.delim v = .ok data → (data ≠ [] ∨ f.required = true) →
+      p.get f.key = (if f.multiline then 10 :: data else data)) ∧
+    (∀ f v, (f, v) ∈ (f0 :: s').zip (.para p0 :: r') → f.anonymous = false → f.key ≠ [45] →
+      marshalValue 16 f.kind f.delim v = .ok [] → f.required = false → f.key ∉ p.order) := by
+  have hcount : ∀ k, (knownKeys (f0 :: s')).count k ≤ 1 := List.nodup_iff_count.mp hnd
+  obtain ⟨h1, h2⟩ := Lemmas.Codec.passthrough h0a h0k hs' hp0 hlisted h
+  refine ⟨h1, h2, fun f v data hfv ha hk hm hw => ?_, fun f v hfv ha hk hm hr => ?_⟩
+  · have hl := Lemmas.Codec.lookup_convert h hfv ha hk hm (hcount _)
+    have hc : ¬ (data.isEmpty && !f.required) = true := by
+      rcases hw with hw | hw
+      · simp [hw]
+      · simp [hw]
+    rw [if_neg hc] at hl
+    unfold Paragraph.get
+    rw [hl]
+    rfl
+  · have := Lemmas.Codec.mem_order_convert h hfv ha hk hm (hcount _)
+    rw [this, hr]
+    simp
+
+/-- The scenario of the repaired defect "cleared known field resurrected": a paragraph with
+    two known and two unknown fields is decoded, `Package` is changed, `Note` is cleared;
+    what is written has the new `Package`, no `Note`, and both unknown fields in place. -/
+example :
+    let B := Bytes.ofString
+    let s : Schema :=
+      [.mk "Paragraph" (B "Paragraph") .para [] [] false false true,
+       .mk "Package" (B "Package") .str [] [] true false false,
+       .mk "Note" (B "Note") .str [] [] false false false,
+       .mk "Size" (B "Size") .int [] [] false false false]
+    let p0 : Paragraph := ⟨[B "Package", B "X-Custom", B "Note", B "Y"],
+      [(B "Package", B "old"), (B "X-Custom", B "keep"), (B "Note", B "stale"), (B "Y", B "z")]⟩
+    (knownKeys s).Nodup ∧ p0.order.Nodup ∧
+    (∀ k ∈ p0.values.map Prod.fst, k ∈ p0.order) ∧
+    convertToParagraph s [.para p0, .str (B "new"), .str [], .int 3] =
+      .ok ⟨[B "Package", B "X-Custom", B "Y", B "Size"],
+        [(B "Package", B "new"), (B "X-Custom", B "keep"), (B "Y", B "z"), (B "Size", B "3")]⟩ := by
+  decide +kernel
+
 end GoDebian.Props.C09
